@@ -109,6 +109,7 @@ type Case struct {
 	Timeline    []int  `json:"timeline_ms,omitempty"` // since the fault: noticed, accept loop ended, Close returned, fronts observed, reads observed
 	RegAtFronts bool   `json:"registered_when_fronts_observed,omitempty"`
 	Skipped        bool     `json:"skipped,omitempty"`         // not run: the stream was stopped after repeated stranding
+	SkipBudget     bool     `json:"skipped_budget,omitempty"`  // ... or the wall-clock budget of the run was used up
 	Queued         int      `json:"queued_at_release,omitempty"`
 	Leak           []string `json:"leak,omitempty"`
 	Hang           string   `json:"hang,omitempty"`
@@ -1815,7 +1816,12 @@ func main() {
 	child := flag.Bool("child", false, "child mode")
 	from := flag.Int("from", 0, "first case (child)")
 	mem := flag.Uint64("mem", 4<<30, "address-space limit of the child")
+	budget := flag.Int("budget", 0, "wall-clock budget of the whole run in seconds (0: none): cases not started by then are skipped")
+	deadline := flag.Int64("deadline", 0, "(child) unix time after which no further case is started")
 	flag.Parse()
+	if *budget > 0 && *deadline == 0 {
+		*deadline = time.Now().Unix() + int64(*budget)
+	}
 	waitBound = time.Duration(*bound) * time.Second
 	var scripted []Case
 	if *script != "" {
@@ -1857,8 +1863,9 @@ func main() {
 		stopped := map[string]bool{}
 		for i := *from; i < total; i++ {
 			c := gen(i)
-			if stopped[c.Stream] {
+			if stopped[c.Stream] || (*deadline > 0 && time.Now().Unix() >= *deadline) {
 				c.Skipped = true
+				c.SkipBudget = !stopped[c.Stream]
 				out.Emit(&c)
 				continue
 			}
@@ -1883,7 +1890,8 @@ func main() {
 		return
 	}
 	args := []string{"-seed", strconv.FormatUint(*seed, 10), "-n", strconv.Itoa(*n), "-e2e", strconv.Itoa(*ne),
-		"-bound", strconv.Itoa(*bound), "-ep", strconv.Itoa(*nep), "-epb", strconv.Itoa(*nepb)}
+		"-bound", strconv.Itoa(*bound), "-ep", strconv.Itoa(*nep), "-epb", strconv.Itoa(*nepb),
+		"-deadline", strconv.FormatInt(*deadline, 10)}
 	if *script != "" {
 		args = append(args, "-script", *script)
 	}
